@@ -219,6 +219,7 @@ def finish(prop, tier, seed, reg, repo, results, extra, t0):
                 if k is not None:
                     known_hits.append((oname, k))
                     continue
+                os.makedirs(VERIF / "replay", exist_ok=True)
                 path = VERIF / "replay" / f"{prop}_bounded_{hashlib.sha1(json.dumps(f, default=str).encode()).hexdigest()[:10]}.json"
                 json.dump({"property": prop, "bounded_standin": s["name"], "failure": f}, open(path, "w"), indent=1,
                           default=str)
